@@ -13,9 +13,7 @@ HARNESSES.append(
     dict(name="gn_parse", src="gn_parse.c", checks=M, units=["crypto/keyformat/asn1.c"],
          functions=["parseGeneralNames", "getAsnLength", "getAsnLength32"],
          sources=["crypto/keyformat/x509.c", "crypto/keyformat/asn1.c"],
-         tolerate_unconfirmed=[r"memcpy destination region writeable.*x509\.c:30\d\d parseGeneralNames"],
-         assumptions=["gn_parse: CBMC reports memcpy(malloc(0), p, 0) for a zero-length otherName OID as a non-writeable destination (model artefact of malloc(0); does not reproduce under ASan) - tolerated, listed in the evidence",
-                      "gn_parse: DER buffer is an object of exactly VF_SIZE bytes, contents and claimed length arbitrary; allocation never fails here (allocation failure is C19)"],
+         assumptions=["gn_parse: DER buffer is an object of exactly VF_SIZE bytes, contents and claimed length arbitrary; allocation never fails here (allocation failure is C19)"],
          cases=[dict(name="size%d" % n, tier=("quick" if n in (6, 9) else "thorough"), defs={"VF_SIZE": n},
                      unwindset={"parseGeneralNames:/while \\(len >= MIN_GENERALNAME_LEN\\)/": n // 3 + 2,
                                 "parseGeneralNames:/while \\(activeName != NULL\\)/": n // 3 + 2,
